@@ -27,11 +27,15 @@ func profileFor(prop string) Profile {
 	case "C05":
 		p.PSegmentOp, p.PBigSeg, p.MinSegs, p.MaxSegs, p.PPrereq, p.PTargets, p.PCtxTargets, p.POff = 0.75, 0.0, 2, 5, 0.05, 0.05, 0.05, 0.02
 		p.PMulti = 0.5
+		p.PNestedSeg = 0.1
 	case "C06":
 		p.PRollout, p.PLongStrings, p.PPrereq, p.PTargets, p.PCtxTargets, p.POff, p.MaxRules = 0.95, 0.25, 0, 0.02, 0.02, 0.02, 1
+		p.PSegmentOp, p.MinSegs, p.MaxClauses = 0.45, 2, 1 // weighted segment rules (incl. ones that look into another segment) share the hash
+		p.PNestedSeg = 0.12
 	case "C07":
 		p.PRollout, p.PBoundary, p.PDegenerateWeights, p.PPrereq, p.PTargets, p.PCtxTargets, p.POff, p.PExperiment = 0.95, 0.75, 0.4, 0, 0.02, 0.02, 0.02, 0.2
 		p.PSegmentOp = 0.4
+		p.PNestedSeg = 0.1
 	case "C08":
 		p.PRollout, p.PExperiment, p.PDegenerateWeights, p.PMulti, p.PPrereq, p.POff = 0.9, 0.75, 0.45, 0.5, 0.3, 0.08
 	case "C09":
